@@ -440,19 +440,38 @@ def _offset_applied(ctx, run):
     east = f.params[2]["name"]
     start = f.params[1]["name"]
 
+    target = [start]
+
     def adds(ff, i):
-        e = ff.exprs[i]
-        if e["k"] != "asg" or e["op"] not in ("+=", "="):
-            return False
-        l = ff.exprs[ex.skip(ff, e["c"][0])]
-        if not (l["k"] == "ref" and l.get("name") == start):
-            return False
-        o = atoms.Operand(ff, e["c"][1])
-        return east in o.locals and (e["op"] == "+=" or start in o.locals)
+        for lhs, var, op, rhs in flow.stores(ff, i):
+            if rhs is None or op not in ("+=", "="):
+                continue
+            nm = var["name"] if var is not None else None
+            if nm is None and lhs is not None:
+                l = ff.exprs[ex.skip(ff, lhs)]
+                nm = l.get("name") if l["k"] == "ref" else None
+            if nm != target[0]:
+                continue
+            o = atoms.Operand(ff, rhs)
+            if east in o.locals and (op == "+=" or start in o.locals or target[0] in o.locals):
+                return True
+        return False
     calls = [(b, i) for b, i in flow.all_events(f) if f.exprs[i]["k"] == "call" and f.exprs[i].get("callee") in ("gmtime_r", "gmtime")]
     if not calls:
         raise AnalysisBroken("valid_pil_lto_to_time: gmtime_r call not found")
     for b, i in calls:
+        # the object handed to gmtime_r (): the reference time itself, or a local copy made for the purpose
+        # (`local_start = start + seconds_east; gmtime_r (&local_start, &tm)`)
+        target[0] = start
+        args = [c for c in f.exprs[i].get("c", []) if c is not None and c >= 0]
+        if args:
+            a0 = f.exprs[ex.skip(f, args[0])]
+            while a0["k"] == "cast" and a0.get("c"):
+                a0 = f.exprs[ex.skip(f, a0["c"][0])]
+            if a0["k"] == "un" and a0["op"] == "&":
+                x0 = f.exprs[ex.skip(f, a0["c"][0])]
+                if x0["k"] == "ref" and x0.get("dk") in ("local", "param"):
+                    target[0] = x0["name"]
         # every path entry -> call passes an `adds` event: remove the blocks with such an event and test reachability
         hit = {bid for bid, ev in flow.all_events(f) if adds(f, ev)}
         blk_call = b
